@@ -1,9 +1,118 @@
 (* C11 - The item tree stays well-formed and completion is detected exactly.
-   Only property theorems; each closed by [exact] of a lemma proved elsewhere. *)
-From ZenoV Require Import Tree.Item Tree.ItemSpec Tree.Witness.
+   Only property theorems; each closed by [exact] of a lemma proved in Tree/ItemProofs.v
+   (statements fixed in Tree/ItemSpec.v, spelled out here with their quantifiers). *)
+From ZenoV Require Import Tree.Item Tree.ItemSpec Tree.Witness Tree.ItemProofs.
 Open Scope N_scope.
 
-(* The de-duplication rule of the code BEFORE "fix: DedupeItems ..." discards a URL altogether on
+(* ---- well-formedness through every operation sequence ---------------------------------------
+   For EVERY list of stage operations (add asset / add redirect target / remove child / status
+   change / URL normalisation / seed done / DedupeItems / markCompleted / CompleteAndCheck; see
+   [sop], [apply_op] in ItemSpec.v) and EVERY start tree: if ids are unique and CheckConsistency
+   passes, and each operation is performed in a state where its guard holds ([op_guard]: the
+   precondition under which the real stage performs it), then ids are unique and CheckConsistency
+   passes at the end ... *)
+Theorem C11_ops_preserve_wf : forall (ops : list sop) (t : item),
+  NoDup (ids t) /\ check_consistency t = 0%nat ->
+  ops_ok ops t ->
+  NoDup (ids (fold_left apply_op ops t)) /\ check_consistency (fold_left apply_op ops t) = 0%nat.
+Proof. exact ops_preserve_wf_lemma. Qed.
+Print Assumptions C11_ops_preserve_wf.
+
+(* ... and after every prefix of the sequence *)
+Theorem C11_ops_preserve_wf_throughout : forall (ops : list sop) (t : item),
+  NoDup (ids t) /\ check_consistency t = 0%nat ->
+  ops_ok ops t ->
+  forall k : nat,
+    NoDup (ids (fold_left apply_op (firstn k ops) t))
+    /\ check_consistency (fold_left apply_op (firstn k ops) t) = 0%nat.
+Proof. exact ops_preserve_wf_all_lemma. Qed.
+Print Assumptions C11_ops_preserve_wf_throughout.
+
+(* in a well-formed tree every Fresh node is a leaf (rule 4 of CheckConsistency) *)
+Theorem C11_wf_fresh_leaves : forall t : item,
+  NoDup (ids t) /\ check_consistency t = 0%nat -> fresh_leaves t = true.
+Proof. exact WF_fresh_leaves_lemma. Qed.
+Print Assumptions C11_wf_fresh_leaves.
+
+(* the guards are satisfiable: a 21-step life of a seed that uses every operation *)
+Theorem C11_ops_nonvacuous :
+  (NoDup (ids seed_tree) /\ check_consistency seed_tree = 0%nat) /\ ops_ok ops1 seed_tree.
+Proof. exact ops1_ok. Qed.
+Print Assumptions C11_ops_nonvacuous.
+
+(* ---- de-duplication is exact ------------------------------------------------------------------
+   Inv0 = the state in which preprocess calls DedupeItems: unique ids, Fresh nodes are leaves, the
+   nodes already worked on (not Fresh) have pairwise distinct URLs. *)
+Theorem C11_dedupe_unique : forall t : item,
+  NoDup (ids t) /\ fresh_leaves t = true /\ NoDup (worked_urls t) ->
+  NoDup (nonseed_urls (dedupe t)).
+Proof. exact dedupe_unique_lemma. Qed.
+Print Assumptions C11_dedupe_unique.
+
+Theorem C11_dedupe_keeps : forall t : item,
+  NoDup (ids t) /\ fresh_leaves t = true /\ NoDup (worked_urls t) ->
+  forall u : N, In u (nonseed_urls t) <-> In u (nonseed_urls (dedupe t)).
+Proof. exact dedupe_keeps_lemma. Qed.
+Print Assumptions C11_dedupe_keeps.
+
+Theorem C11_dedupe_keeps_worked : forall (t n : item),
+  NoDup (ids t) /\ fresh_leaves t = true /\ NoDup (worked_urls t) ->
+  In n (nonseed_nodes t) -> is_fresh_node n = false -> In (id_of n) (ids (dedupe t)).
+Proof. exact dedupe_keeps_worked_lemma. Qed.
+Print Assumptions C11_dedupe_keeps_worked.
+
+Theorem C11_dedupe_ids : forall t : item,
+  NoDup (ids t) /\ fresh_leaves t = true /\ NoDup (worked_urls t) ->
+  NoDup (ids (dedupe t)) /\ incl (ids (dedupe t)) (ids t) /\ id_of (dedupe t) = id_of t.
+Proof. exact dedupe_ids_lemma. Qed.
+Print Assumptions C11_dedupe_ids.
+
+Theorem C11_dedupe_consistent : forall t : item,
+  NoDup (ids t) /\ fresh_leaves t = true /\ NoDup (worked_urls t) ->
+  check_consistency t = 0%nat -> check_consistency (dedupe t) = 0%nat.
+Proof. exact dedupe_consistent_lemma. Qed.
+Print Assumptions C11_dedupe_consistent.
+
+(* what DedupeItems does in that state: it drops some Fresh nodes, marks completed, nothing else *)
+Theorem C11_dedupe_prune : forall t : item,
+  NoDup (ids t) /\ fresh_leaves t = true /\ NoDup (worked_urls t) ->
+  exists dead : N -> bool,
+    (forall n, In n (nonseed_nodes t) -> dead (id_of n) = true -> is_fresh_node n = true)
+    /\ dedupe t = mark_completed (prune dead t).
+Proof. exact dedupe_prune_lemma. Qed.
+Print Assumptions C11_dedupe_prune.
+
+(* the hypothesis is met by a tree on which DedupeItems has real work to do *)
+Theorem C11_dedupe_nonvacuous :
+  Inv0 big_tree
+  /\ nonseed_urls big_tree = [1; 2; 3; 2; 7; 7; 4; 4; 9; 10]
+  /\ nonseed_urls (dedupe big_tree) = [1; 2; 3; 7; 4; 9; 10]
+  /\ ids (dedupe big_tree) = [0; 1; 2; 3; 6; 4; 9; 10].
+Proof. exact dedupe_big_tree. Qed.
+Print Assumptions C11_dedupe_nonvacuous.
+
+(* ---- completion is detected exactly -------------------------------------------------------------
+   On every tree in which a terminal node (Completed / Seen / Failed) has no pending descendant
+   ([closed]; part of the pipeline invariant, Stage/PassSpec.v), CompleteAndCheck answers "complete"
+   if and only if no node awaits fetching or post-processing (Fresh / PreProcessed / Archived), and
+   marking does not hide pending work. *)
+Theorem C11_complete_iff : forall t : item,
+  closed t = true ->
+  snd (complete_and_check t) = no_pending t
+  /\ no_pending (fst (complete_and_check t)) = no_pending t.
+Proof. exact complete_iff_lemma. Qed.
+Print Assumptions C11_complete_iff.
+
+(* [closed] is necessary: well-formedness alone does not make the answer exact *)
+Theorem C11_complete_needs_closed :
+  exists t : item,
+    (NoDup (ids t) /\ check_consistency t = 0%nat) /\ closed t = false
+    /\ snd (complete_and_check t) = true /\ no_pending t = false.
+Proof. exact complete_needs_closed. Qed.
+Print Assumptions C11_complete_needs_closed.
+
+(* ---- the defect ---------------------------------------------------------------------------------
+   The de-duplication rule of the code BEFORE "fix: DedupeItems ..." discards a URL altogether on
    a well-formed tree the pipeline reaches (assets of assets); the fixed rule keeps it. *)
 Theorem C11_dedupe_orig_refuted :
   Inv0 w_tree /\ check_consistency w_tree = 0%nat /\
